@@ -146,6 +146,7 @@ def f3_endianness(ctx, L):
                     any(isinstance(k.value, ast.Name) and k.value.id == 'endianness' for k in c.keywords)
                 L.check(passed, 'F3.order-threaded', '%s|%s' % (f.fq, norm_key(f, c)), f.site(c),
                         'call of %s (which takes a byte order) does not pass the caller\'s endianness' % callee, unparse(c))
+    probes = set()
     for m in runtime_modules(ctx):
         for node in ast.walk(m.tree):
             if isinstance(node, ast.Call) and unparse(node.func) in ('struct.pack', 'struct.unpack', 'struct.pack_into',
@@ -153,6 +154,11 @@ def f3_endianness(ctx, L):
                 n_pack += 1
                 f = m.func_of.get(id(node))
                 fmt = node.args[0] if node.args else None
+                if isinstance(m.parent(node), ast.Expr) and f is not None and 'endianness' not in f.params:
+                    # a domain probe: the packed bytes are discarded, only "does it fit" is observed
+                    probes.add(id(fmt.left) if isinstance(fmt, ast.BinOp) else 0)
+                    L.ok('F3.pack-format', '%s|probe' % f.fq, f.site(node), 'range probe, result discarded')
+                    continue
                 ok = (isinstance(fmt, ast.BinOp) and isinstance(fmt.op, ast.Add) and unparse(fmt.left) == 'endianness'
                       and unparse(fmt.right) == 'id_' and f is not None and f.parent is not None
                       and 'id_' in f.parent.params and 'endianness' in f.params)
@@ -160,7 +166,7 @@ def f3_endianness(ctx, L):
                         f.site(node) if f else m.rel,
                         'struct format must be exactly `endianness + id_` (caller\'s byte order + the scalar\'s code)',
                         unparse(node))
-            if isinstance(node, ast.Constant) and isinstance(node.value, str) and \
+            if isinstance(node, ast.Constant) and isinstance(node.value, str) and id(node) not in probes and \
                     re.match(r'^[<>=!@][%s]*$' % STRUCT_CODES, node.value):
                 f = m.func_of.get(id(node))
                 L.bad('F3.no-order-literal', '%s|%r' % (m.name, node.value), f.site(node) if f else m.rel,
@@ -743,7 +749,8 @@ def counter_clause(ctx, L):
             'C01.counter-derived', 'container_len.evaluate_size|mismatch', e.site(),
             'unequal lengths of arrays sharing a sizer must be refused', '')
     c = g.func('build_container_length_field.container_len._encode')
-    L.check(has(c, 'return sizer_item_type._encode(value + bound_shift, endianness)'), 'C01.counter-derived',
+    L.check(has(c, 'return sizer_item_type._encode(value + bound_shift, endianness)',
+                'return sizer_item_type._encode(sizer_item_type._check(value + bound_shift), endianness)'), 'C01.counter-derived',
             'container_len._encode', c.site(), 'the counter on the wire is count + bound_shift in the sizer type', unparse(c.node))
     s = g.func('struct_generator.substitute_len_field')
     L.check(has(s, 'delattr(cls, sizer_item.name)'), 'C10d.counter-unsettable', 'substitute_len_field', s.site(),
